@@ -123,6 +123,8 @@ pub struct ResumeOpts {
     pub expect_expired: bool,
     /// no disconnection recorded (hook H1 not used): an ordinary second connect() + run() on the same Context
     pub plain: bool,
+    /// the new connection is established through an extended authentication exchange (CONNACK received by authorize())
+    pub via_auth: bool,
 }
 
 impl Default for WorldCfg {
@@ -191,6 +193,8 @@ pub struct World {
     pub rich_pubs: bool,
     /// every second subscribe() carries three topic filters (its SUBACK then has three reason codes, granted and refused mixed)
     pub multi_filter: bool,
+    /// every fourth publish carries a payload of 70 000 bytes or more
+    pub huge_pubs: bool,
 }
 
 #[derive(Default, Clone, Debug)]
@@ -328,6 +332,7 @@ impl World {
             size_mix: false,
             rich_pubs: false,
             multi_filter: false,
+            huge_pubs: false,
             confirmed_inbound: 0,
         };
         if w.connack_sum.is_none() {
@@ -367,7 +372,7 @@ impl World {
                     Kind::Pub1 => 1,
                     _ => 2,
                 };
-                let mut sp = PubSpec::simple(q, &format!("o/{idx}"), format!("p{idx}").as_bytes());
+                let mut sp = PubSpec::simple(q, &format!("o/{idx}"), &self.plain_payload(idx));
                 if self.rich_pubs && idx % 3 == 2 {
                     // rarely used options whose encoded size crosses the 1-/2-byte property-length boundary
                     let (ct, up) = Self::rich_options(idx);
@@ -390,6 +395,21 @@ impl World {
             Kind::Ping => OpSpec::Ping,
             Kind::Disc => OpSpec::Disconnect(DiscSpec::default()),
             Kind::PubBig => OpSpec::Publish(PubSpec::simple(1, &format!("o/{idx}"), &Self::big_payload(idx))),
+        }
+    }
+
+    /// payload of the `idx`-th operation if it is a plain publish: "p<idx>", or - with `huge_pubs` - for every fourth one
+    /// 70 000 / 140 000 / 270 000 bytes (beyond 64 KiB, the 3-byte remaining length, and 256 KiB)
+    pub fn plain_payload(&self, idx: usize) -> Vec<u8> {
+        if self.huge_pubs && idx % 4 == 1 {
+            let n = [70_000usize, 140_000, 270_000][(idx / 4) % 3];
+            let mut v = vec![b'h'; n];
+            for (j, b) in v.iter_mut().enumerate().step_by(997) {
+                *b = (j as u8) ^ (idx as u8);
+            }
+            v
+        } else {
+            format!("p{idx}").into_bytes()
         }
     }
 
@@ -944,9 +964,19 @@ impl World {
         }
         self.sim.note(|| format!("hook H1: disconnected {secs_ago} s ago; session expiry interval {:?}; new CONNACK receive maximum {:?}, maximum packet size {:?}", sei, o.receive_max, o.max_packet));
         self.sim.new_transport();
-        let conn = ConnSpec { sei, client_id: Some("c".into()), ..Default::default() };
-        self.sim.cmd(Cmd::Connect(conn));
-        self.sim.settle();
+        if o.via_auth {
+            let conn = ConnSpec { sei, client_id: Some("c".into()), auth_method: Some("m".into()), auth_data: Some(vec![1]), ..Default::default() };
+            self.sim.cmd(Cmd::Connect(conn));
+            self.sim.settle();
+            self.sim.feed_packet(&SPacket::Auth { reason: Some(0x18), props: vec![Prop::str(21, "m"), Prop::bin(22, b"c")] });
+            self.sim.settle();
+            self.sim.cmd(Cmd::Authorize(AuthSpec { reason: Some(0x18), method: Some("m".into()), data: Some(vec![2]), user_props: vec![] }));
+            self.sim.settle();
+        } else {
+            let conn = ConnSpec { sei, client_id: Some("c".into()), ..Default::default() };
+            self.sim.cmd(Cmd::Connect(conn));
+            self.sim.settle();
+        }
         let mut cprops = connack_sei.map(|v| vec![Prop::u32(17, v)]).unwrap_or_default();
         if let Some(r) = o.receive_max {
             cprops.push(Prop::u16(33, r));
@@ -960,8 +990,9 @@ impl World {
         self.sim.settle();
         self.sim.parse_wire();
         let after_connect = self.sim.wire.len();
-        if !matches!(self.sim.last_ctx_result("connect"), Some(CtxOut::Conn(ConnOut::Connack(_)))) {
-            self.viol(&["C17"], "C17/reconnect-failed".into(), format!("second connect() did not return ConnectRsp: {:?}", self.sim.last_ctx_result("connect")));
+        let call = if o.via_auth { "authorize" } else { "connect" };
+        if !matches!(self.sim.last_ctx_result(call), Some(CtxOut::Conn(ConnOut::Connack(_)))) {
+            self.viol(&["C17"], "C17/reconnect-failed".into(), format!("second {call}() did not return ConnectRsp: {:?}", self.sim.last_ctx_result(call)));
             self.blind = true;
             return false;
         }
@@ -1068,7 +1099,7 @@ impl World {
                             }
                             let mut got_props = p.props.clone();
                             got_props.sort_by_key(|x| (x.id != 3, format!("{:?}", x)));
-                            if p.id != self.m[i].pkt_id || p.qos != want_q || p.payload != format!("p{i}").into_bytes() || p.retain || got_props != self.want_pub_props(i) {
+                            if p.id != self.m[i].pkt_id || p.qos != want_q || p.payload != self.plain_payload(i) || p.retain || got_props != self.want_pub_props(i) {
                                 self.viol(&["C17"], "C17/resent-publish-differs".into(), format!("op{i}: re-sent {} differs from the original (id {:?}, qos {want_q})", CPacket::Publish(p.clone()).brief(), self.m[i].pkt_id));
                             }
                             self.m[i].req_wire = Some(widx);
@@ -1197,7 +1228,7 @@ impl World {
                         Kind::Pub1 | Kind::PubBig => 1,
                         _ => 2,
                     };
-                    let want_payload = if self.m[i].kind == Kind::PubBig { Self::big_payload(i) } else { format!("p{i}").into_bytes() };
+                    let want_payload = if self.m[i].kind == Kind::PubBig { Self::big_payload(i) } else { self.plain_payload(i) };
                     if p.dup {
                         self.viol(P_C06, format!("C06/dup-set-on-first-transmission/qos={}", p.qos), format!("op{i}: first PUBLISH has DUP=1"));
                     }
